@@ -49,8 +49,15 @@ class Report:
             c['inconclusive'].append('%s: %s' % (key, verdict))
         if nontrivial:
             self._distinct.add(key)
-        if sample is not None and len(c['samples']) < 12:
-            c['samples'].append(sample)
+        if sample is not None:
+            if len(c['samples']) < 12:
+                c['samples'].append(sample)
+            elif isinstance(sample, dict) and solver_s:
+                # beyond the first dozen, keep the six obligations that cost the solver most
+                sl = c.setdefault('slowest', [])
+                sl.append(dict(sample, solver_s=round(solver_s, 2)))
+                sl.sort(key=lambda x: -x.get('solver_s', 0))
+                del sl[6:]
 
     def inconclusive(self, what):
         self.cov['inconclusive'].append(str(what)[:400])
